@@ -312,14 +312,24 @@ func (w *World) NewSubscriberOn(h host.Host, opts ...dagsync.Option) *SubNode {
 	return s
 }
 
+// ScopedHook is a per-call block hook (dagsync.ScopedBlockHook): the same
+// behaviour as the subscriber-wide one, its calls are tagged "scoped".
+func (s *SubNode) ScopedHook(p peer.ID, c cid.Cid, act dagsync.SegmentSyncActions) {
+	s.hookTagged(p, c, act, "scoped")
+}
+
 func (s *SubNode) blockHook(p peer.ID, c cid.Cid, act dagsync.SegmentSyncActions) {
+	s.hookTagged(p, c, act, "")
+}
+
+func (s *SubNode) hookTagged(p peer.ID, c cid.Cid, act dagsync.SegmentSyncActions, tag string) {
 	name := s.W.Names.Name(c.String())
 	pn := s.W.Names.Name(string(p))
 	if s.ParkHooks {
 		s.W.R.ParkHook("hook.call", pn+" "+name, nil)
 	}
 	s.mu.Lock()
-	s.hooks = append(s.hooks, HookCall{Peer: pn, Cid: c, Name: name, Step: s.W.R.Step(), GID: simkit.CurGID()})
+	s.hooks = append(s.hooks, HookCall{Peer: pn, Cid: c, Name: name, Step: s.W.R.Step(), GID: simkit.CurGID(), Tag: tag})
 	s.mu.Unlock()
 	s.W.R.Logf("hook."+pn, "block %s", name)
 	if err, ok := s.FailAt[c]; ok {
